@@ -79,6 +79,8 @@ OCCUPANTS = {
     "staticmethod": "    @staticmethod\n    def {n}(*args, **kwargs):\n        return 'user:{n}'\n",
     "property": "    @property\n    def {n}(self):\n        return 'user:{n}'\n",
     "value": "    {n} = 'user-value:{n}'\n",
+    "falsy_value": "    {n} = None\n",
+    "falsy_value2": "    {n} = ()\n",
 }
 
 
@@ -236,8 +238,10 @@ def occupants_worker(task):
     variants = [(None, None)] + [(n, occ) for n in names for occ in OCCUPANTS]
     for bootstrap in (False, True):
         for n, occ in variants:
-            if task["tier"] == "quick" and occ in ("staticmethod",) and not n.startswith("__"):
+            if task["tier"] == "quick" and occ in ("staticmethod", "falsy_value2") and not n.startswith("__"):
                 continue
+            if occ in ("falsy_value", "falsy_value2") and n in ("__init__", "__repr__", "__eq__"):
+                continue  # (binding a dunder to None has Python semantics of its own, e.g. __eq__ = None disables equality)
             extra = OCCUPANTS[occ].format(n=n) if n else ""
             user_names = {n} if n else set()
             case = {"part": "occupant", "rec": rec, "name": n, "occupant": occ, "bootstrap": bootstrap}
@@ -378,8 +382,116 @@ def selection_worker(task):
     return C.rec
 
 
+INHERIT_SRC = {
+    "collision_across_parent": ('''
+@spec_class
+class P:
+    people: List[str] = []
+
+class N(P):
+    persons: Set[str] = set()
+''', [("people", True), ("persons", True)], {"people": "w", "persons": "w"}),
+    "collision_across_parent_rev": ('''
+@spec_class
+class P:
+    persons: Set[str] = set()
+    other: int = 0
+
+class N(P):
+    people: List[str] = []
+''', [("persons", True), ("other", False), ("people", True)], {"people": "w", "persons": "w"}),
+}
+
+
+def inherit_worker(task):
+    """(i) singular collisions split across a spec parent and a decorated subclass; (ii) a subclass that overrides a
+    helper and calls super(): the user's override must survive the first call"""
+    from spec_classes import spec_class
+
+    C = Counter()
+    for name, (src, attrs, samples) in INHERIT_SRC.items():
+        for bootstrap in (False, True):
+            ns = build_undecorated(src)
+            case = {"part": "inherit", "scenario": name, "bootstrap": bootstrap}
+            sig = {"part": "inherit", "scenario": name, "bootstrap": bootstrap}
+            # the parent's helper names are inherited, not added to N: expectation = names for N's own attributes only
+            before = dict(vars(ns["N"]))
+            out = []
+            try:
+                spec_class(**({"bootstrap": True} if bootstrap else {}))(ns["N"])
+                md = ns["N"].__spec_class__
+                inst = ns["N"]()
+                own = [n for n, _ in attrs if n in before.get("__annotations__", {})]
+                parent_coll = [n for n, c in attrs if c and n not in own]
+                for n in [x for x, c in attrs if c]:
+                    it = md.attrs[n].item_name
+                    r = getattr(inst, "with_" + it)(samples[n])
+                    changed = [k for k in md.attrs if repr(vars(r).get(k)) != repr(vars(inst).get(k))]
+                    if changed != [n]:
+                        out.append(violation(PROP, dict(sig, kind="element_helper_acts_on_wrong_attribute", attr=n),
+                                             {"helper": "with_" + it, "changed": changed}, case))
+                names = [md.attrs[n].item_name for n, c in attrs if c]
+                if len(set(names)) != len(names):
+                    out.append(violation(PROP, dict(sig, kind="element_helpers_shadowed"), {"item_names": names}, case))
+            except RuntimeError:
+                pass  # raising is an allowed answer to a collision
+            except Exception as e:
+                out.append(violation(PROP, dict(sig, kind="decoration_raised", error=type(e).__name__), {"error": repr(e)[:200]}, case))
+            C.inc("states"); C.inc("transitions"); C.inc("evaluations")
+            for v in out:
+                C.viol(v)
+            if not out:
+                C.inc("traces_validated_against_impl")
+                C.nontrivial(("inherit", name, bootstrap))
+    # (ii) subclass overriding a helper and calling super()
+    for decorated in (False, True):
+        for bootstrap in (False, True):
+            src = '''
+@spec_class%s
+class P:
+    x: int = 0
+    xs: List[int] = []
+
+%sclass N(P):
+    def with_x(self, value, **kw):
+        return super().with_x(value + 1, **kw)
+    def with_x_item(self, *a, **kw):
+        return "user"
+    def update(self, *a, **kw):
+        return super().update(*a, **kw)
+''' % ("(bootstrap=True)" if bootstrap else "", "@spec_class\n" if decorated else "")
+            ns = build_undecorated(src)
+            N = ns["N"]
+            before = {k: vars(N)[k] for k in ("with_x", "with_x_item", "update")}
+            case = {"part": "inherit", "scenario": "override_calls_super", "decorated": decorated, "bootstrap": bootstrap}
+            sig = {"part": "inherit", "scenario": "override_calls_super", "decorated": decorated, "bootstrap": bootstrap}
+            out = []
+            try:
+                n = N()
+                r1 = n.with_x(1)
+                r2 = n.with_x(1)
+                n.update(x=5)
+                n.update(x=5)
+                if r1.x != 2 or r2.x != 2:
+                    out.append(violation(PROP, dict(sig, kind="user_override_bypassed"), {"first": r1.x, "second": r2.x}, case))
+                for k, v in before.items():
+                    if vars(N).get(k) is not v:
+                        out.append(violation(PROP, dict(sig, kind="user_definition_replaced", name=k, phase="after_super_call"),
+                                             {"name": k, "after": repr(vars(N).get(k))[:100]}, case))
+            except Exception as e:
+                out.append(violation(PROP, dict(sig, kind="override_raised", error=type(e).__name__), {"error": repr(e)[:200]}, case))
+            C.inc("states"); C.inc("transitions"); C.inc("evaluations")
+            for v in out:
+                C.viol(v)
+            if not out:
+                C.inc("traces_validated_against_impl")
+                C.nontrivial(("override_calls_super", decorated, bootstrap))
+    C.sample({"part": "inherit", "scenarios": list(INHERIT_SRC) + ["override_calls_super"]})
+    return C.rec
+
+
 def work(task):
-    return {"occupant": occupants_worker, "naming": naming_worker, "selection": selection_worker}[task["part"]](task)
+    return {"occupant": occupants_worker, "naming": naming_worker, "selection": selection_worker, "inherit": inherit_worker}[task["part"]](task)
 
 
 def run_case(case):
@@ -390,6 +502,9 @@ def run_case(case):
     if case["part"] == "naming":
         sub = naming_worker({"specs": [[tuple(x) for x in case["attrs"]]]})
         return [v for v in sub["violations"] if v["case"]["attrs"] == case["attrs"] and v["case"]["bootstrap"] == case["bootstrap"]]
+    if case["part"] == "inherit":
+        sub = inherit_worker({})
+        return [v for v in sub["violations"] if all(v["case"].get(k) == case.get(k) for k in ("scenario", "bootstrap", "decorated"))]
     sub = selection_worker({})
     return [v for v in sub["violations"] if v["case"].get("kwargs") == case.get("kwargs") and v["case"].get("bootstrap") == case.get("bootstrap")]
 
@@ -400,6 +515,7 @@ def main(run):
     tasks = [{"part": "occupant", "rec": r, "tier": run.tier} for r in recs]
     tasks += [{"part": "naming", "specs": [s]} for s in NAMING]
     tasks.append({"part": "selection"})
+    tasks.append({"part": "inherit"})
     for rec in pmap(work, tasks):
         run.merge(rec)
     run.add(rule=(
